@@ -226,10 +226,20 @@ class Proc:
         self.argv = argv
         self.jobs = jobs or int(os.environ.get("VERIF_JOBS", "12"))
 
+    def _limit(self):
+        # the harness runs the crate in-process: an operation that allocates without bound must kill that child (the request
+        # is then isolated by bisection and reported as died), not the machine. The model driver is not limited (the Lean
+        # runtime reserves a large address space up front).
+        if os.path.basename(self.argv[-1]) == "waxh":
+            import resource
+            cap = int(os.environ.get("VERIF_HARNESS_MEM", str(6 << 30)))
+            return lambda: resource.setrlimit(resource.RLIMIT_AS, (cap, cap))
+        return None
+
     def _one(self, lines, timeout):
         data = "".join(l + "\n" for l in lines)
         try:
-            r = subprocess.run(self.argv, input=data, capture_output=True, text=True, timeout=timeout, env=ENV)
+            r = subprocess.run(self.argv, input=data, capture_output=True, text=True, timeout=timeout, env=ENV, preexec_fn=self._limit())
             out = r.stdout.split("\n")
             rc = r.returncode
         except subprocess.TimeoutExpired:
